@@ -400,6 +400,13 @@ func (c *StreamConn) PeerClosedAt() (time.Duration, bool) {
 	return p.closedAt, p.closed
 }
 
+// LocallyClosed reports whether Close was called on this end.
+func (c *StreamConn) LocallyClosed() bool {
+	c.mu.Lock()
+	defer c.mu.Unlock()
+	return c.closed
+}
+
 // Close closes the socket. Unread inbound data turns the FIN into a reset,
 // as on Linux.
 func (c *StreamConn) Close() error {
